@@ -1,0 +1,57 @@
+//go:build verif
+
+package cmd
+
+import (
+	"log/slog"
+
+	"github.com/AdguardTeam/AdGuardDNS/internal/dnsserver/forward"
+	"github.com/AdguardTeam/AdGuardDNS/internal/errcoll"
+	"github.com/AdguardTeam/golibs/service"
+	"gopkg.in/yaml.v2"
+)
+
+// Verification hooks for property C17: the production wiring of the forwarding
+// handler.  They run the unchanged conversion and constructor functions that
+// [builder.initDNS] and [builder.initHealthCheck] call on the upstream section
+// of a configuration parsed from YAML.
+
+// VerifC17Upstream wraps the upstream section of a parsed configuration file.
+type VerifC17Upstream struct {
+	c *upstreamConfig
+}
+
+// VerifC17ParseUpstream parses data, a configuration file of which only the
+// upstream section matters, the way [parseConfig] does, without validating it.
+func VerifC17ParseUpstream(data []byte) (v *VerifC17Upstream, err error) {
+	c := &configuration{}
+	err = yaml.Unmarshal(data, c)
+	if err != nil {
+		return nil, err
+	}
+
+	return &VerifC17Upstream{c: c.Upstream}, nil
+}
+
+// VerifC17Validate runs the start-up validation of the upstream section.
+func (v *VerifC17Upstream) VerifC17Validate() (err error) { return v.c.validate() }
+
+// VerifC17HandlerConfig converts the section the way [builder.initDNS] does.
+func (v *VerifC17Upstream) VerifC17HandlerConfig(l *slog.Logger) (c *forward.HandlerConfig) {
+	return v.c.toInternal(l)
+}
+
+// VerifC17NewHandler builds the handler the way [builder.initDNS] does.
+func (v *VerifC17Upstream) VerifC17NewHandler(l *slog.Logger) (h *forward.Handler) {
+	return forward.NewHandler(v.c.toInternal(l))
+}
+
+// VerifC17Healthcheck builds the health-check service the way
+// [builder.initHealthCheck] does; the caller starts it and shuts it down.
+func (v *VerifC17Upstream) VerifC17Healthcheck(
+	l *slog.Logger,
+	h *forward.Handler,
+	errColl errcoll.Interface,
+) (svc service.Interface) {
+	return newUpstreamHealthcheck(l, h, v.c, errColl)
+}
